@@ -7,7 +7,7 @@ PROPERTY = 'C02'
 RULE = ('cases = (Y, X, relabelling f of Y, relabelling g of X): C01 structures x {random permutation of used codes, +offset, '
         'order reversal, sparse recoding into [0,2^20), swap of two codes}, scored with and without correction before and after; '
         'a targeted family of non-identical pairs that the self-pair test could confuse (Y = permutation of X, equal histograms, '
-        'equal sums with different histograms, two swapped positions) and identical pairs; exhaustive: all pairs of set partitions '
+        'equal sums with different histograms, two swapped positions) and identical pairs; pairs that agree on the rows kept by a sampling ratio < 1 but differ elsewhere; exhaustive: all pairs of set partitions '
         'of n<=5 rows x all injective relabellings of X onto <= n+1 codes (quick) ; plus pipeline runs of mixed_rank_graph on a frame '
         'and on the same frame with values renamed so that their sort order (category codes) is reversed. distinct = (joint '
         'structure signature, relabelling kind); non-trivial = corrected and plain model values differ by more than 10*tol, so '
@@ -31,6 +31,8 @@ def plan(tier, seed):
         shards.append({'name': 'random-%d' % i, 'fn': 'shard_random', 'args': {'part': i, 'parts': nr}})
     for i in range(2 if tier == 'quick' else 4):
         shards.append({'name': 'targeted-%d' % i, 'fn': 'shard_targeted', 'args': {'part': i}})
+    for i in range(2 if tier == 'quick' else 4):
+        shards.append({'name': 'near-identical-subsampled-%d' % i, 'fn': 'shard_near_identical_subsampled', 'args': {'part': i}})
     shards.append({'name': 'pipeline', 'fn': 'shard_pipeline', 'args': {}})
     return shards
 
@@ -185,6 +187,45 @@ def shard_targeted(sh, part):
                 kind = rng.choice(KINDS)
                 fY, gX = relabel(kind, Yv, rng, nprng), relabel(rng.choice(KINDS + ['identity']), X, rng, nprng)
                 observe(sh, est, Yv, X, fY, gX, kind, 'targeted/' + name, sample=(rep == 0 and n == 20))
+
+
+def shard_near_identical_subsampled(sh, part):
+    """Self-pair rule under a sampling ratio < 1: vectors that agree on the sampled rows only are still different vectors."""
+    import numpy as np
+    from outrank.algorithms.feature_ranking import ranking_mi_numba as m
+    rng, nprng = sh.rng('near', part), sh.nprng('near', part)
+    reps = 40 if sh.tier == 'quick' else 200
+    for rep in range(reps):
+        n = rng.choice([12, 40, 200, 1000])
+        card = rng.choice([2, 3, 5, 12])
+        X = nprng.integers(0, card, n).astype(np.int32)
+        r = float(np.float32(rng.choice([0.2, 0.35, 0.5, 0.7, 0.9])))
+        rows, S, q = oracles.subsample_model(X, r)
+        if rows is None or len(rows) >= n:
+            continue
+        outside = np.setdiff1d(np.arange(n), np.array(rows))
+        for variant in ('differs-outside-sample', 'differs-in-last-row', 'identical'):
+            Y = X.copy()
+            if variant == 'differs-outside-sample':
+                pick = outside[nprng.choice(len(outside), max(1, len(outside) // 2), replace=False)]
+                Y[pick] = (X[pick] + 1) % (card + 1)
+            elif variant == 'differs-in-last-row':
+                j = int(outside[-1])
+                Y[j] = (X[j] + 1) % (card + 1)
+            ok, got = sh.call('self-rule-only-identical', 'estimator', m.mutual_info_estimator_numba, Y, X, np.float32(r), True)
+            if not ok:
+                continue
+            got = float(got)
+            model_c = oracles.subsampled_score_model(Y, X, r, True)
+            alt = oracles.subsampled_score_model(Y, X, r, True, rows_override=sorted(rows))
+            plain = oracles.subsampled_score_model(Y, X, r, False)
+            wit = lambda: {'variant': variant, 'n': n, 'r': r, 'X': X[:200], 'Y': Y[:200], 'got': got, 'model_corrected': model_c, 'model_uncorrected': plain}  # noqa: E731
+            if variant == 'identical':
+                sh.check('self-rule-identical', oracles.close32(got, plain), 'identical-pair-not-uncorrected', wit)
+            else:
+                sh.check('self-rule-only-identical', oracles.close32(got, model_c) or oracles.close32(got, alt), 'self-rule-on-non-identical-pair', wit)
+            sh.case((gen.joint_signature(Y, X), variant, r), abs(model_c - plain) > 10 * oracles.TOL_ABS, 'subsampled/' + variant,
+                    sample={'variant': variant, 'n': n, 'r': r, 'X': X[:16], 'Y': Y[:16], 'score': got, 'model': model_c} if rep == 0 else None)
 
 
 def shard_pipeline(sh):
